@@ -8,6 +8,7 @@ import AdaVerif.Model.UrlSetters
 import AdaVerif.Model.Protocol
 import AdaVerif.Model.HostSetter
 import AdaVerif.Model.AggHostSetter
+import AdaVerif.Model.ParseSpecial
 import Driver.UrlCmd
 /- agg.edit <state> <editor> <hexarg> : apply one Model editor to a buffer-with-offsets state.
    state = buf,pe,ue,hs,he,port,ps,ss,hh,opq   (hex buffer, decimal offsets, '-' = omitted) -/
@@ -91,10 +92,11 @@ def cmdAggEdit (state ed arg : String) (hintArgs : List String := []) : String :
   match parseAgg state with
   | none => "bad-state"
   | some a =>
-    match applyEditor a ed (unhexs arg) (parseFlags state) (mkIdna (parseHints hintArgs)) with
+    let idna := mkIdna (parseHints hintArgs)
+    match applyEditor a ed (unhexs arg) (parseFlags state) idna with
     | none => "bad-op"
     | some a' =>
-      match findMarker (getHostname a') with
+      match findMarker idna (getHostname a') with
       | some d => s!"need-idna {hexs d}"
       | none => s!"{dumpAgg a'} shape={if shapeB a' then 1 else 0} wf={if wfOf (abs a') then 1 else 0}"
 
@@ -156,14 +158,31 @@ def cmdUrlSet (a : List String) : String :=
       -- an IDNA answer that is not among the hints shows up as a marker in the host (looked for without the limit, so
       -- that a refusal for size cannot hide it)
       let probe : Option Bytes := match op with
-        | "set_host" => findMarker ((Model.UrlRec.setHostR false idna 4294967295 t dflt r v).1.host.getD [])
-        | "set_hostname" => findMarker ((Model.UrlRec.setHostR true idna 4294967295 t dflt r v).1.host.getD [])
+        | "set_host" => findMarker idna ((Model.UrlRec.setHostR false idna 4294967295 t dflt r v).1.host.getD [])
+        | "set_hostname" => findMarker idna ((Model.UrlRec.setHostR true idna 4294967295 t dflt r v).1.host.getD [])
         | _ => none
       match probe with
       | some d => s!"need-idna {hexs d}"
       | none =>
       s!"{hexs r'.scheme} {if r'.special then 1 else 0} {hexs r'.username} {hexs r'.password} {o r'.host} {showOpt r'.port} " ++
       s!"{hexs r'.path} {o r'.query} {o r'.hash} {if r'.opq then 1 else 0} r={if ok then 1 else 0}"
+  | _ => "bad-op"
+
+/-- parse.special <hexinput> [hints] : the model of parse_url_impl<ada::url>(input, nullptr) on special non-file schemes -/
+def cmdParseSpecial (a : List String) : String :=
+  match a with
+  | input :: hintArgs =>
+    let idna := mkIdna (parseHints hintArgs)
+    match Model.ParseSpecial.parseNoBase idna (unhexs input) with
+    | .other => "other"
+    | .invalid => "invalid"
+    | .ok r =>
+      match findMarker idna (r.host.getD []) with
+      | some d => s!"need-idna {hexs d}"
+      | none =>
+        let o (x : Option Bytes) : String := match x with | some b => hexs b | none => "!"
+        s!"{hexs r.scheme} {if r.special then 1 else 0} {hexs r.username} {hexs r.password} {o r.host} {showOpt r.port} " ++
+        s!"{hexs r.path} {o r.query} {o r.hash} {if r.opq then 1 else 0}"
   | _ => "bad-op"
 
 end Driver
